@@ -436,7 +436,13 @@ func openHarnessDb(w *wiring, dir string) (*harnessDb, error) {
 				gs.uidx[d.Field] = gs.AddUniqueIndex(gs.symbols[d.Field])
 			}
 		case "setidx":
-			gs.sidx[d.Field] = gs.AddSetIndex(gs.sets[d.Field])
+			sym := gs.sets[d.Field]
+			if sym == nil && gs.def.Parent != "" {
+				// a set index declared on a child store over a string list of its parent (the model keeps the string
+				// lists of an entity at the root level; PersistEntity of the child writes them through the parent)
+				sym = h.stores[gs.def.Parent].sets[d.Field]
+			}
+			gs.sidx[d.Field] = gs.AddSetIndex(sym)
 		case "fkindex":
 			if d.Nullable {
 				gs.AddNullableFkIndex(gs.symbols[d.Field], h.stores[d.Target].sets[d.Back])
@@ -800,6 +806,28 @@ func (h *harnessDb) facts() []string {
 			childNames[s.Name] = true
 		}
 	}
+	// string sets that live INSIDE a child-store bucket: the local set of a link collection declared on a child store and
+	// the back-reference set of an fk index whose target is a child store.  The model keeps every string set of an entity
+	// at the root level (e_s), so they are projected to the same S:<root>:<id>:<set>:<member> facts; any other bucket
+	// inside a child-store bucket stays JUNK.
+	childSets := map[string]map[string]bool{}
+	addChildSet := func(store, set string) {
+		if childNames[store] {
+			if childSets[store] == nil {
+				childSets[store] = map[string]bool{}
+			}
+			childSets[store][set] = true
+		}
+	}
+	for _, d := range h.w.Script {
+		switch d.Kind {
+		case "link":
+			addChildSet(d.Store, d.Field)
+			addChildSet(d.Target, d.Back)
+		case "fkindex", "fkindexcascade":
+			addChildSet(d.Target, d.Back)
+		}
+	}
 	_ = h.db.View(func(tx *bbolt.Tx) error {
 		top := tx.Bucket([]byte("stores"))
 		if top == nil {
@@ -898,6 +926,15 @@ func (h *harnessDb) facts() []string {
 						_ = sub.ForEach(func(ck, cv []byte) error {
 							if cv != nil {
 								out = append(out, fmt.Sprintf("CF:%s:%s:%s:%s:%s", name, ih, fname, ck, fieldValStr(cv)))
+							} else if cs := sub.Bucket(ck); cs != nil && childSets[fname][string(ck)] {
+								_ = cs.ForEach(func(mk, mv []byte) error {
+									if len(mk) > 0 && boltz.FieldType(mk[0]) == boltz.TypeString {
+										out = append(out, fmt.Sprintf("S:%s:%s:%s:%s", name, ih, ck, hx(mk[1:])))
+									} else {
+										out = append(out, fmt.Sprintf("JUNK:S:%s:%s:%s.%s:%s", name, ih, fname, ck, hx(mk)))
+									}
+									return nil
+								})
 							} else {
 								out = append(out, fmt.Sprintf("JUNK:CF:%s:%s:%s:%s", name, ih, fname, hx(ck)))
 							}
